@@ -75,10 +75,9 @@ theorem C05_block_error (fuel : Nat) (st : Stmt) (rest : List Stmt) (acc : List 
     and the `errors.Is` chain — and whatever output had been accumulated is dropped -/
 theorem C05_compile_error (fuel : Nat) (t : Token) (e : Option Expr) (rest : List Stmt) (out : Bytes) (s s1 : ES) (er : Err)
     (h : evalExpr fuel e ({ s with curStmt := none }) = (.err er, s1)) :
-    ∃ line, compileStmts (fuel + 1) (.ret true t e :: rest) out s
-      = (.err { er with line := some line, direct := false }, s1) := by
-  refine ⟨_, ?_⟩
-  simp [compileStmts, bind, modifyS, attempt, h, getS, throwErr, pure]
-  rfl
+    compileStmts (fuel + 1) (.ret true t e :: rest) out s
+      = (.err { er with line := some (match s1.curStmt with | some l => l | none => t.line), direct := false }, s1) := by
+  simp [compileStmts, bind, modifyS, attempt, h, getS, throwErr, pure, Stmt.tok]
+  cases s1.curStmt <;> rfl
 
 end Plush
